@@ -176,6 +176,11 @@ Definition read_up_to (stop : option N) (c : coll) (o : obj) : outcome (coll * o
   x <- collect_elements (S (length (snd c))) false stop None (fst c) (snd c) [] ;;
   let '(es, r, st) := x in Ok ((st, r), fold_left put es o).
 
+(* read_dataset_up_to_pixeldata: "equivalent to read_dataset_up_to(tags::PIXEL_DATA, to)" *)
+Definition read_up_to_pixeldata (c : coll) (o : obj) : outcome (coll * obj) := read_up_to (Some T_PIXEL) c o.
+(* read_dataset_to_end *)
+Definition read_to_end (c : coll) (o : obj) : outcome (coll * obj) := read_up_to None c o.
+
 (* token.skip() consumes the value; the stream of tokens is what remains *)
 Definition is_pixel_start (t : ltoken) : bool :=
   match t with
@@ -359,6 +364,8 @@ Definition token_eqb (a b : token) : bool :=
   | _, _ => false
   end.
 
+(* a portion request: (true, _) = read_dataset_up_to_pixeldata, (false, t) = read_dataset_up_to(t) *)
+Definition split_stop (s : bool * N) : N := if fst s then T_PIXEL else snd s.
 (* run the collector over the split tags, then to the end; the objects after every portion *)
 Fixpoint run_splits (big : bool) (splits : list N) (c : coll) (o : obj) (acc : list obj) : outcome (list obj * obj) :=
   match splits with
@@ -390,7 +397,7 @@ Definition out_eqb {A} (eq : A -> A -> bool) (m i : outcome A) : bool :=
 
 Inductive case :=
 | CFile (big : bool) (eager lazy : list token) (whole : obj)
-        (splits : list N) (parts : list obj) (final : outcome obj)
+        (splits : list (bool * N)) (parts : list obj) (final : outcome obj)
         (bot_first : bool) (frags : outcome frag_obs)
         (until_to : option N * option N) (partial : outcome obj).
 
@@ -407,8 +414,8 @@ Definition check_case (c : case) : bool :=
     && list_eqb token_eqb (map lens_erased eager) (map lens_erased (tokens_of_obj 1 (fun _ => 0) (fun _ => []) whole))
     (* collector over the splits *)
     && match final with
-       | Ok fin => out_eqb (pair_eqb (list_eqb obj_eqb) obj_eqb) (run_splits big splits (SMeta, lt) [] []) (Ok (parts, fin))
-       | _ => out_eqb (pair_eqb (list_eqb obj_eqb) obj_eqb) (run_splits big splits (SMeta, lt) [] []) (Err 9)
+       | Ok fin => out_eqb (pair_eqb (list_eqb obj_eqb) obj_eqb) (run_splits big (map split_stop splits) (SMeta, lt) [] []) (Ok (parts, fin))
+       | _ => out_eqb (pair_eqb (list_eqb obj_eqb) obj_eqb) (run_splits big (map split_stop splits) (SMeta, lt) [] []) (Err 9)
        end
     (* fragments one by one *)
     && out_eqb frag_obs_eqb (run_fragments big bot_first lt) frags
